@@ -63,6 +63,10 @@ def case(task):
                 res['order'] = gc.order_dependence(
                     desc, seed, p, N, KEYS, fwd, with_T=with_T,
                     vacuum=vacuum)
+                if st.Lambda != 0:
+                    res['lamattr'] = gc.lambda_attribute_dependence(
+                        desc, seed, p, N, KEYS, fwd, with_T=with_T,
+                        vacuum=vacuum)
     except Exception as ex:      # noqa: BLE001
         import traceback
         res['raised'] = traceback.format_exc()[-600:]
@@ -109,6 +113,14 @@ def judge(run, task, res):
         run.violation(f"C04:raised:{desc[0]}", f"{tag}: {res['raised']}",
                       {'task': res['task']})
         return
+    for k, d in res.get('lamattr', {}).items():
+        run.count('lambda_attribute_comparisons')
+        if not d <= 1e-12:
+            run.violation(f"C04:Lambda-as-attribute:{k}",
+                          f"{tag}: {k} differs by {d:.2e} (relative) when "
+                          "the cosmological constant is assigned to "
+                          "rel.Lambda after construction instead of passed "
+                          "as a keyword", {'task': res['task'], 'key': k})
     for k, d in res.get('order', {}).items():
         run.count('order_comparisons')
         if not d <= 1e-9:
